@@ -47,12 +47,16 @@ CHECKS["C13"] = dict(
     design="4/C13")
 CHECKS["C03"] = dict(
     text="Theorems element_roundtrip (from_xml (to_xml m) = norm m for every constructible message, any kind / attribute subset / number of children / "
-         "text) and reserialisation_is_identical, over the live registry. The byte level is PARTIAL: string_roundtrip_partial is conditional on the XML "
-         "layer's round trip parse(print t)=t, which is not yet proved for the streaming XML model; it is validated every run by running the model parser "
-         "on the implementation's bytes, the implementation's parser on the model's bytes and on 3 foreign spellings, and the model lexer against expat on "
-         "valid/mutated/junk documents incl. a Latin-1 sweep.",
-    note=NOTE_BASE + "PARTIAL: the XML text layer (Xml.Lex/Xml.Print vs expat/ElementTree.tostring) is validated by correspondence, not proved.",
-    technique="Coq proof at element level + correspondence-validated XML layer (partial at byte level)",
+         "text), reserialisation_is_identical, xml_print_then_parse_is_identity (Xml/RoundTrip.v: lexing the printed text of ANY printable tree - "
+         "names, attributes with every escape and character reference, text, nested children, empty elements, declaration - yields its tokens and "
+         "the builder rebuilds the tree; 600 lines, induction over the tree) and hence string_roundtrip at the byte level: from_string (to_string m) "
+         "= norm m and the re-serialised bytes are identical, for every constructible message whose names and characters XML can carry (a decidable "
+         "condition, 'printable', evaluated on every generated message; a carriage return in text is outside it: an XML parser reads it as a line "
+         "feed). That the XML model is expat / ElementTree.tostring is the correspondence: the model parser on the implementation's bytes, the "
+         "implementation's parser on the model's bytes and on 3 foreign spellings, and the model lexer against expat on valid/mutated/junk documents "
+         "incl. a Latin-1 sweep.",
+    note=NOTE_BASE + "The XML text layer is a model of expat / ElementTree.tostring, validated by correspondence; within the model the byte-level round trip is proved.",
+    technique="Coq proof at element level and at byte level (XML print-then-parse identity by induction over trees) + correspondence of the XML model with expat/ElementTree",
     design="4/C03")
 CHECKS["C10"] = dict(
     text="Theorems over exact integers, for every format of the family and every finite value (no range bound): rendered_text_is_valid, "
